@@ -1,0 +1,10 @@
+//go:build verif
+
+package rtpsender
+
+import "github.com/pion/rtcp"
+
+// VerifReport exposes report() to the verification harness (build tag verif only).
+func (rs *Sender) VerifReport() rtcp.Packet {
+	return rs.report()
+}
